@@ -23,6 +23,11 @@ def run(res):
     Kf = dict(K, G=('g1', 'g2'), Script={'g1': (('y', W), ('y', 0)), 'g2': (('y', 0), ('y', W), ('y', 0))}, Dts={0, W - 1, W}, MaxTimer=2 * W,
               WithKill=False, _Q=2.0 ** -31)
     cc.check_and_replay(res, 'c08_fine_grain', Kf, depth_all=0, walks=1000, walk_len=20)
+    # a sleeper is paused and resumed (kill, start) from inside a body while another coroutine goes to sleep later in
+    # the same frame: 'never later, whatever other coroutines are waiting for'
+    Ka = dict(K, G=('m', 's', 'b'), Script={'m': (('y', 0), ('kill!', 2), ('start', 2), ('y', 0)), 's': (('y', 3), ('y', 0)), 'b': (('y', 0), ('y', 2), ('y', 0))},
+              Dts={1, 2}, MaxTimer=8, WithKill=False)
+    cc.check_and_replay(res, 'c08_restart_in_frame', Ka, depth_all=0, walks=1000, walk_len=30)
     # (B) recorded executions: 7 coroutines with random scripts (waits up to 7, in-body start/kill), random schedules
     for i in range(4 if th else 2):
         res.seed += i
